@@ -247,4 +247,16 @@ PROPS["C05"] = {
     "explanation": "writers and parsers proved per line at column level; text-level composition and lexing axioms bounded",
 }
 
+PROPS["C17"] = {
+    "level": "other",
+    "technique": "order-insensitivity obligations by self-composition of the one loop over a set that feeds the output (tag loop of make_scaffold_name, executed for two distinct tags in both orders from the real AST), syntactic frame over the package for every other place where a set's iteration order could reach a value; functional contracts of the streaming/formatting stages (results are functions of their arguments, independent of buffer_size); bounded reruns under different hash seeds, working directories, cache states and input formats",
+    "level_text": "Proved: for any two distinct non-empty tags and any state, running the real loop body of make_scaffold_name for them in either order either raises in both orders or ends in the same state (all 3.7k pairs of paths), so by adjacent transpositions the outcome does not depend on the iteration order of the tag set, i.e. on PYTHONHASHSEED; no other function of the package iterates, star-unpacks, joins or lists a set (syntactic frame, re-scanned on every run); the contracts of format_agp/format_tpf, the chunk iterators and write_scaffold define their output as a function of their arguments with no dependence on buffer_size (C03/C13). Bounded: working directory, cold/warm cache, in-process order of invocations, FASTA vs AGP vs TPF input, the 12 specimens.",
+    "level_note": "An order dependence exists for an empty-string tag (a falsy haplotype name): outside the domain (PretextView writes no empty tag column), stated as a precondition. Text of TaggingError messages depends on the set order but is not written to an output file. Process environment (cwd, cache state) is only reachable by the bounded tier.",
+    "lemmas": [],
+    "bounded": [("bounded.c17", {})],
+    "trusted": PIPE_TRUSTED + ["re.fullmatch(pattern, s) holds iff s is in the language of the pattern (ASCII classes)", "str.lower is a function of the string", "dict.setdefault semantics"],
+    "assumptions": ["tags are non-empty strings; haplotype names recorded so far are non-empty"],
+    "explanation": "hash-seed independence proved for the only set-ordered loop + frame; environment factors bounded",
+}
+
 NOT_APPLICABLE = {}
